@@ -52,6 +52,18 @@ ASSUMPTIONS = ["sklearn KMeans / scipy gaussian_kde / scipy resample results are
 BUDGET = {"quick": 120, "thorough": 900}
 
 R_BIT = 10e9
+# fixed streams
+BATCH_SEEDS = [61001, 61003]
+BATCH_SEEDS_THOROUGH = [61002, 61004, 61005, 61006, 61007, 61008, 61009]
+BATCH_COUNT = 100
+# one record under np.random.seed(0..299).  (Chosen among 28 candidate records x 300 seeds: the failure mode of a weaker KMeans
+# initialisation — a top/bottom instead of a left/right split of the crossing points — needs about one numpy seed in 6000 on
+# records of this generator, so a sweep drawn afresh on every run would not show it reliably within the quick budget.)
+SWEEP_RECORDS = [{"sps": 32, "nsl": 126, "pattern": "random", "a": 0.0, "d": 0.01810991817099998, "sigma": 0.005, "bwf": 0.8,
+                  "seed": 340124608, "seed0": 0, "nseeds": 300}]
+SWEEP_RECORDS_THOROUGH = [{"sps": 32, "nsl": 127, "pattern": "random", "a": -0.35, "d": 0.7, "sigma": 0.02, "bwf": 0.75, "seed": 1634154402,
+                           "seed0": 0, "nseeds": 1000},
+                          {"sps": 8, "nsl": 64, "pattern": "prbs", "a": 0.0, "d": 1.0, "sigma": 0.03, "bwf": 0.85, "seed": 77, "seed0": 1000, "nseeds": 1000}]
 
 
 def gen_cases(rng, tier):
@@ -135,6 +147,13 @@ def gen_cases(rng, tier):
     cases.append({"kind": "eye", "sps": 16, "nsl": 64, "pattern": "square", "a": 0.0, "d": 1.0, "sigma": 0.0, "bwf": None, "alpha": 2.0,
                   "beta": 1.0, "spsr": 128, "seed": 6, "tie_only": True})
     rng.shuffle(cases)
+    # --- fixed streams (NOT derived from VERIF_SEED; validated record by record on the unchanged tree, see PARTIAL) ---
+    # (a) 1 mV eyes compared at 1 V (alpha = 1000) and at 0.3 mV (alpha = 0.3): the timing outputs must be IDENTICAL
+    for bseed in (BATCH_SEEDS if tier == "quick" else BATCH_SEEDS + BATCH_SEEDS_THOROUGH):
+        cases.append({"kind": "batch", "sps": 8, "bseed": bseed, "count": BATCH_COUNT, "d": 1e-3, "alphas": [1000.0, 0.3], "spsr": 128})
+    # (b) one cheap record evaluated under many states of numpy's global RNG (the clustering draws from it)
+    for rec in (SWEEP_RECORDS if tier == "quick" else SWEEP_RECORDS + SWEEP_RECORDS_THOROUGH):
+        cases.append(dict(rec, kind="sweep", spsr=128, alpha=1.0, beta=0.0))
     return cases
 
 
@@ -349,6 +368,34 @@ def _one_run(dev, x, case, obj=None, light=False, positional=False):
     return out
 
 
+def _light(dev, x, spsr, npseed):
+    """one GET_EYE call, only the returned fields are kept"""
+    from opticomlib.typing import electrical_signal
+    try:
+        from threadpoolctl import threadpool_limits
+    except Exception:  # noqa
+        from contextlib import nullcontext as threadpool_limits
+    np.random.seed(npseed % (2 ** 32))
+    try:
+        with threadpool_limits(limits=1), time_limit(30):
+            e = dev.GET_EYE(electrical_signal(x), sps_resamp=spsr)
+    except Timeout:
+        raise
+    except Exception as ex:  # noqa
+        return {"status": "err", "err": exc_enum(ex), "detail": repr(ex)[:160]}
+    return {"status": "ok", "fields": {k: (int(getattr(e, k)) if k == "i" else _fl(getattr(e, k, None))) for k in FIELDS},
+            "i_is_int": isinstance(getattr(e, "i"), (int, np.integer))}
+
+
+def _batch_records(case):
+    import random as _random
+    r = _random.Random(case["bseed"])
+    d = case["d"]
+    return [{"kind": "eye", "sps": case["sps"], "nsl": r.choice([64, 64, 80, 100]), "pattern": r.choice(["random", "prbs"]), "a": r.choice([0.0, -d / 2]),
+             "d": d, "sigma": r.uniform(0.005, 0.05), "bwf": r.uniform(0.7, 1.0), "spsr": case["spsr"], "seed": r.getrandbits(31)}
+            for _ in range(case["count"])]
+
+
 def run_impl(case):
     from opticomlib.typing import gv
     import opticomlib.devices as dev
@@ -359,6 +406,17 @@ def run_impl(case):
             warnings.simplefilter("ignore")
             gv.clean()
             gv(sps=case["sps"], R=R_BIT)
+            if case["kind"] == "batch":
+                recs = []
+                for sub in _batch_records(case):
+                    x = _waveform(sub, dev)
+                    recs.append([_light(dev, al * x, case["spsr"], sub["seed"]) for al in case["alphas"]])
+                res.update(status="ok", records=recs)
+                return res
+            if case["kind"] == "sweep":
+                x = _waveform(case, dev)
+                res.update(status="ok", runs=[_light(dev, x, case["spsr"], k) for k in range(case["seed0"], case["seed0"] + case["nseeds"])])
+                return res
             # call history: earlier evaluations in the same process whose grids have the same TOTAL number of samples as the main
             # one but another number of samples per slot (with / without sps_resamp); they must leave no trace
             res["prelude"] = []
@@ -413,7 +471,7 @@ MODEL_MAX_Y = 70000      # the list-recursive Lean model is not run on the half-
 
 
 def model_requests(case, res):
-    if res.get("status") != "ok":
+    if res.get("status") != "ok" or case["kind"] != "eye":
         return []
     reqs = []
     for run in _runs(res):
@@ -440,7 +498,7 @@ def _num(v):
 
 
 def compare(case, res, reqs, replies):
-    if not reqs:
+    if not reqs or case["kind"] != "eye":
         return []
     out = []
     it = iter(replies)
@@ -547,6 +605,98 @@ def _same(a, b, tol):
     return abs(a - b) <= tol
 
 
+def _neff(case):
+    try:
+        _b = np.asarray(_bits(case, np.random.default_rng(case["seed"])))[:4096]
+        _per = max(1.0, case["sps"] / 10.0)
+        return {"s0": float(np.sum(_b == 0)) * _per, "s1": float(np.sum(_b == 1)) * _per}
+    except Exception:  # noqa  (patterns without a bit list, e.g. the directed square wave)
+        return {"s0": 1e9, "s1": 1e9}
+
+
+def _accuracy(which, run, case, sc, of, neff, tag):
+    """the absolute clauses of the statement on ONE returned eye (levels a, b of `case` scaled by sc and offset by of);
+    returns (violations, fields or None)"""
+    v = []
+    a, d = case["a"], case["d"]
+    b = a + d
+    sg_ = case["sigma"] * d
+    if run.get("status") != "ok":
+        v.append((f"C17:raises", f"{which}: GET_EYE raised {run.get('err')} {run.get('detail')} {tag}"))
+        return v, None
+    f = {k: _num(x) for k, x in run["fields"].items()}
+    bad = [k for k in FIELDS if f[k] is None or (isinstance(f[k], float) and not math.isfinite(f[k]))]
+    if bad:
+        v.append(("C17:non-finite", f"{which}: {bad} not finite {tag}"))
+        return v, None
+    A, B, D, S = sc * a + of, sc * b + of, sc * d, sc * sg_
+    if not (abs(f["mu0"] - A) <= 0.08 * D):
+        v.append(("C17:mu0", f"{which}: mu0={f['mu0']:.6g}, level a={A:.6g}, error {abs(f['mu0'] - A) / D:.3f} of b-a {tag}"))
+    if not (abs(f["mu1"] - B) <= 0.08 * D):
+        v.append(("C17:mu1", f"{which}: mu1={f['mu1']:.6g}, level b={B:.6g}, error {abs(f['mu1'] - B) / D:.3f} of b-a {tag}"))
+    for nm in ("s0", "s1"):
+        # The band is a demand on an ESTIMATE from a finite record.  The central 10 % window of a level holds about
+        # n_eff = (slots at that level) * max(1, sps/10) independent noise samples (the up-sampled points in between are
+        # interpolated, not independent); a sample standard deviation of n_eff Gaussian samples has the relative
+        # standard error 1/sqrt(2 (n_eff - 1)).  For the shortest records of the quantifier (64 slots at sps 8:
+        # n_eff ~ 20..30) ANY estimator dips below sigma/2 about once in 3000 records (seen on the unchanged tree, seed 49
+        # of a sweep: 0.476 sigma).  The lower bound is therefore widened by 4 standard errors: < 15 % for >= 256 slots at
+        # sps >= 16, and it still rejects a spread that is wrong by a factor.
+        lo = (S / 2) * max(0.0, 1.0 - 4.0 / math.sqrt(2.0 * max(neff[nm] - 1.0, 1.0)))
+        if not (lo <= f[nm] <= 2 * S + 0.03 * D):
+            v.append((f"C17:{nm}", f"{which}: {nm}/(b-a)={f[nm] / D:.4f} outside [sigma/2 (-4 standard errors for n_eff={neff[nm]:.0f}: {lo / D:.4f}), 2 sigma+3%], sigma={case['sigma']:.4f} {tag}"))
+    if not (f["mu0"] < f["threshold"] < f["mu1"]):
+        v.append(("C17:threshold", f"{which}: threshold {f['threshold']:.6g} not strictly between mu0 {f['mu0']:.6g} and mu1 {f['mu1']:.6g} {tag}"))
+    if not (abs(f["t_right"] - f["t_left"] - 1) <= 0.1):
+        v.append(("C17:crossings", f"{which}: t_right-t_left = {f['t_right'] - f['t_left']:.4f} {tag}"))
+    if not (abs(f["t_opt"] - (f["t_left"] + f["t_right"]) / 2) <= 1.0 / case["spsr"] + 1e-12):
+        v.append(("C17:t_opt", f"{which}: t_opt {f['t_opt']} not midway between {f['t_left']} and {f['t_right']} {tag}"))
+    if not (run["i_is_int"] and 0 <= f["i"] < case["sps"]):
+        v.append(("C17:index", f"{which}: i={f['i']} outside [0,{case['sps']}) {tag}"))
+    return v, f
+
+
+TIMING = ("t_left", "t_right", "t_opt", "i")
+
+
+def _oracle_batch(case, res):
+    v = []
+    for sub, runs in zip(_batch_records(case), res["records"]):
+        tag = (f"(fixed stream {case['bseed']}: sps={sub['sps']}, nsl={sub['nsl']}, {sub['pattern']}, a={sub['a']:.4g}, b-a={sub['d']:.4g}, "
+               f"sigma={sub['sigma']:.4f}, bw={sub['bwf']:.3f}R, seed={sub['seed']}, alphas={case['alphas']})")
+        neff = _neff(sub)
+        fs = []
+        for al, run in zip(case["alphas"], runs):
+            vv, f = _accuracy(f"alpha={al:g}", run, sub, al, 0.0, neff, tag)
+            v += vv
+            fs.append(f)
+        if all(f is not None for f in fs):
+            f1, f2 = fs[0], fs[-1]
+            a1, a2 = case["alphas"][0], case["alphas"][-1]
+            diff = [k for k in TIMING if f1[k] != f2[k]]
+            if diff:
+                v.append(("C17:equivariance-timing", f"timing outputs {diff} differ between the waveform scaled by {a1:g} ({[f1[k] for k in diff]}) and by "
+                                                     f"{a2:g} ({[f2[k] for k in diff]}): scaling must leave them unchanged {tag}"))
+            for nm in ("mu0", "mu1", "s0", "s1"):
+                if not (abs(f2[nm] / a2 - f1[nm] / a1) <= 0.01 * sub["d"]):
+                    v.append(("C17:equivariance-level" if nm[0] == "m" else "C17:equivariance-spread",
+                              f"{nm}: {f1[nm] / a1:.6g} (alpha={a1:g}) vs {f2[nm] / a2:.6g} (alpha={a2:g}) in the units of the original {tag}"))
+    return v
+
+
+def _oracle_sweep(case, res):
+    v = []
+    neff = _neff(case)
+    for k, run in enumerate(res["runs"]):
+        tag = (f"(np.random.seed({case['seed0'] + k}); sps={case['sps']}, nsl={case['nsl']}, {case['pattern']}, a={case['a']:.4g}, b-a={case['d']:.4g}, "
+               f"sigma={case['sigma']:.3f}, bw={case['bwf']:.2f}R, seed={case['seed']})")
+        vv, _ = _accuracy("run", run, case, 1.0, 0.0, neff, tag)
+        v += vv
+        if len(v) >= 5:
+            break
+    return v
+
+
 def oracle(case, res):
     if res.get("status") == "timeout":
         return [("C17:timeout", "GET_EYE did not return")]
@@ -554,6 +704,10 @@ def oracle(case, res):
         return [("C17:raises", f"{res.get('err')} {res.get('detail')}")]
     if case.get("tie_only"):
         return []
+    if case["kind"] == "batch":
+        return _oracle_batch(case, res)
+    if case["kind"] == "sweep":
+        return _oracle_sweep(case, res)
     v = []
     a, d = case["a"], case["d"]
     b = a + d
@@ -561,48 +715,13 @@ def oracle(case, res):
     al, be = case["alpha"], case["beta"]
     tag = (f"(sps={case['sps']}, nsl={case['nsl']}, {case['pattern']}, a={a:.4g}, b-a={d:.4g}, sigma={case['sigma']:.3f}, bw={case['bwf']:.2f}R, "
            f"alpha={al:.3g}, beta={be:.3g}, seed={case['seed']})")
-    try:
-        _b = np.asarray(_bits(case, np.random.default_rng(case["seed"])))[:4096]
-        _per = max(1.0, case["sps"] / 10.0)
-        neff = {"s0": float(np.sum(_b == 0)) * _per, "s1": float(np.sum(_b == 1)) * _per}
-    except Exception:  # noqa  (patterns without a bit list, e.g. the directed square wave)
-        neff = {"s0": 1e9, "s1": 1e9}
+    neff = _neff(case)
     runs = []
     for which, sc, of in (("run1", 1.0, 0.0), ("run2", al, be)):
-        run = res[which]
-        if run.get("status") != "ok":
-            v.append((f"C17:raises", f"{which}: GET_EYE raised {run.get('err')} {run.get('detail')} {tag}"))
-            continue
-        f = {k: _num(x) for k, x in run["fields"].items()}
-        bad = [k for k in FIELDS if f[k] is None or (isinstance(f[k], float) and not math.isfinite(f[k]))]
-        if bad:
-            v.append(("C17:non-finite", f"{which}: {bad} not finite {tag}"))
-            continue
-        runs.append(f)
-        A, B, D, S = sc * a + of, sc * b + of, sc * d, sc * sg_
-        if not (abs(f["mu0"] - A) <= 0.08 * D):
-            v.append(("C17:mu0", f"{which}: mu0={f['mu0']:.6g}, level a={A:.6g}, error {abs(f['mu0'] - A) / D:.3f} of b-a {tag}"))
-        if not (abs(f["mu1"] - B) <= 0.08 * D):
-            v.append(("C17:mu1", f"{which}: mu1={f['mu1']:.6g}, level b={B:.6g}, error {abs(f['mu1'] - B) / D:.3f} of b-a {tag}"))
-        for nm in ("s0", "s1"):
-            # The band is a demand on an ESTIMATE from a finite record.  The central 10 % window of a level holds about
-            # n_eff = (slots at that level) * max(1, sps/10) independent noise samples (the up-sampled points in between are
-            # interpolated, not independent); a sample standard deviation of n_eff Gaussian samples has the relative
-            # standard error 1/sqrt(2 (n_eff - 1)).  For the shortest records of the quantifier (64 slots at sps 8:
-            # n_eff ~ 20..30) ANY estimator dips below sigma/2 about once in 3000 records (seen on the unchanged tree, seed 49
-            # of a sweep: 0.476 sigma).  The lower bound is therefore widened by 4 standard errors: < 15 % for >= 256 slots at
-            # sps >= 16, and it still rejects a spread that is wrong by a factor.
-            lo = (S / 2) * max(0.0, 1.0 - 4.0 / math.sqrt(2.0 * max(neff[nm] - 1.0, 1.0)))
-            if not (lo <= f[nm] <= 2 * S + 0.03 * D):
-                v.append((f"C17:{nm}", f"{which}: {nm}/(b-a)={f[nm] / D:.4f} outside [sigma/2 (-4 standard errors for n_eff={neff[nm]:.0f}: {lo / D:.4f}), 2 sigma+3%], sigma={case['sigma']:.4f} {tag}"))
-        if not (f["mu0"] < f["threshold"] < f["mu1"]):
-            v.append(("C17:threshold", f"{which}: threshold {f['threshold']:.6g} not strictly between mu0 {f['mu0']:.6g} and mu1 {f['mu1']:.6g} {tag}"))
-        if not (abs(f["t_right"] - f["t_left"] - 1) <= 0.1):
-            v.append(("C17:crossings", f"{which}: t_right-t_left = {f['t_right'] - f['t_left']:.4f} {tag}"))
-        if not (abs(f["t_opt"] - (f["t_left"] + f["t_right"]) / 2) <= 1.0 / case["spsr"] + 1e-12):
-            v.append(("C17:t_opt", f"{which}: t_opt {f['t_opt']} not midway between {f['t_left']} and {f['t_right']} {tag}"))
-        if not (run["i_is_int"] and 0 <= f["i"] < case["sps"]):
-            v.append(("C17:index", f"{which}: i={f['i']} outside [0,{case['sps']}) {tag}"))
+        vv, f = _accuracy(which, res[which], case, sc, of, neff, tag)
+        v += vv
+        if f is not None:
+            runs.append(f)
     for j, pre in enumerate(res.get("prelude", [])):
         if pre.get("status") != "ok":
             v.append(("C17:raises", f"earlier call {j} of the history ({case['prelude'][j]}) raised {pre.get('err')} {pre.get('detail')} {tag}"))
@@ -648,6 +767,10 @@ def oracle(case, res):
 
 
 def features(case, res):
+    if case["kind"] == "batch":
+        return ["kind=batch", "status=" + str(res.get("status")), f"batch-records={case['count']}"]
+    if case["kind"] == "sweep":
+        return ["kind=sweep", "status=" + str(res.get("status")), f"sweep-seeds={case['nseeds']}"]
     f = ["status=" + str(res.get("status")), f"sps={case['sps']}", "pattern=" + case["pattern"], f"spsr={case['spsr']}",
          "d<1e-2" if case["d"] < 1e-2 else "d<1" if case["d"] < 1 else "d<10" if case["d"] < 10 else "d>=10",
          "alpha<1e-1" if case["alpha"] < 0.1 else "alpha<10" if case["alpha"] < 10 else "alpha>=10",
@@ -665,6 +788,10 @@ def features(case, res):
 
 
 def nontrivial_key(case, res):
+    if case["kind"] == "batch":
+        return ("batch", case["bseed"]) if res.get("status") == "ok" else None
+    if case["kind"] == "sweep":
+        return ("sweep", case["seed"], case["seed0"]) if res.get("status") == "ok" else None
     if res.get("status") != "ok" or len(_runs(res)) != 2:
         return None
     for r in _runs(res):
